@@ -24,6 +24,8 @@ from liquid.token import TOKEN_LBRACKET
 from liquid.token import TOKEN_RBRACKET
 from liquid.token import TOKEN_WORD
 
+from ._tokenize import _keywords as KEYWORDS
+
 if TYPE_CHECKING:
     from liquid import Environment
     from liquid import RenderContext
@@ -35,7 +37,9 @@ Location = tuple[Union[str, int, "Location"], ...]
 
 
 # This is use for pretty printing paths with shorthand notation where possible.
-RE_PROPERTY = re.compile(r"[\u0080-\uFFFFa-zA-Z_][\u0080-\uFFFFa-zA-Z0-9_-]*")
+# It must not match anything the expression tokenizer would not read as a single
+# word: `\w` excludes the punctuation and spaces found above U+007F.
+RE_PROPERTY = re.compile(r"[^\W\d][\w-]*")
 
 
 class Path(Expression):
@@ -54,7 +58,7 @@ class Path(Expression):
             if isinstance(segment, Path):
                 buf.append(f"[{segment}]")
             elif isinstance(segment, str):
-                if RE_PROPERTY.fullmatch(segment):
+                if RE_PROPERTY.fullmatch(segment) and segment not in KEYWORDS:
                     buf.append(f".{segment}" if i else segment)
                 else:
                     # Quoted segments have no escape sequences. Use whichever
